@@ -2,6 +2,7 @@ package main
 
 import (
 	"fmt"
+	"os"
 	"go/token"
 	"strings"
 
@@ -76,6 +77,9 @@ func (q *Cut) Run(c *Ctx) (string, int) {
 				return q.witness(c, it, in), examined
 			}
 			if q.Sep != nil && q.Sep(in) {
+				if os.Getenv("LP2P_DEBUG_CUT") == fnKey(q.Fn) {
+					fmt.Printf("CUT sep at b%d: %s\n", b.Index, describeInstr(in))
+				}
 				stopped = true
 				break
 			}
@@ -90,6 +94,9 @@ func (q *Cut) Run(c *Ctx) (string, int) {
 		for s, succ := range b.Succs {
 			examined++
 			if q.EdgeCut != nil && q.EdgeCut(b, s) {
+				if os.Getenv("LP2P_DEBUG_CUT") == fnKey(q.Fn) {
+					fmt.Printf("CUT edge b%d->b%d removed\n", b.Index, succ.Index)
+				}
 				continue
 			}
 			if q.contradicts(b, s) {
